@@ -41,6 +41,7 @@ type QFact struct {
 	guard   Term
 	varSym  string
 	body    Term // range ==> body, with varSym free
+	unfolds []unfoldT
 }
 
 // Witness is a skolem constant of an assumed existential.
@@ -64,14 +65,32 @@ func (e *Env) evalHyps(hyps []Expr) (Term, error) {
 // quantParts evaluates a quantifier with its bound variable left free and
 // returns the variable symbol, the range condition and the body.
 func (e *Env) quantParts(q *EQuant) (string, Term, Term, error) {
+	v, rng, body, _, err := e.quantPartsU(q)
+	return v, rng, body, err
+}
+
+func (e *Env) quantPartsU(q *EQuant) (string, Term, Term, []unfoldT, error) {
+	v, rng, body, err := e.quantParts0(q)
+	if err != nil {
+		return "", Term{}, Term{}, nil, err
+	}
+	u := e.lastUnfolds
+	e.lastUnfolds = nil
+	return v, rng, body, u, nil
+}
+
+func (e *Env) quantParts0(q *EQuant) (string, Term, Term, error) {
 	e.vc.nfresh++
 	v := quote(fmt.Sprintf("q:%s!%d", q.Var, e.vc.nfresh))
 	env := e.with(map[string]TV{q.Var: {Term{v, SInt}, tInt}})
 	env.bound = true
+	var unf []unfoldT
+	env.unfolds = &unf
 	body, err := env.evalBool(q.Body)
 	if err != nil {
 		return "", Term{}, Term{}, err
 	}
+	e.lastUnfolds = unf
 	rng := tTrue
 	if q.Lo != nil {
 		lo, err := e.eval(q.Lo)
@@ -109,12 +128,12 @@ func (vc *VC) assumeClause(guard Term, env *Env, cl *Clause) {
 		if err != nil {
 			continue
 		}
-		v, rng, body, err := env.quantParts(q)
+		v, rng, body, unf, err := env.quantPartsU(q)
 		if err != nil {
 			continue
 		}
 		if q.Forall {
-			vc.qfacts = append(vc.qfacts, &QFact{lineIdx: len(vc.lines), guard: and(guard, h), varSym: v, body: implies(rng, body)})
+			vc.qfacts = append(vc.qfacts, &QFact{lineIdx: len(vc.lines), guard: and(guard, h), varSym: v, body: implies(rng, body), unfolds: unf})
 			continue
 		}
 		w := vc.fresh("ex:"+q.Var, SInt)
@@ -163,7 +182,7 @@ func (vc *VC) obligeClause(kind, label, site string, guard Term, env *Env, cl *C
 		}
 		q, isQ := p.concl.(*EQuant)
 		if isQ && q.Forall {
-			v, rng, body, err := env.quantParts(q)
+			v, rng, body, unf, err := env.quantPartsU(q)
 			if err != nil {
 				vc.specError(cl, err)
 				return
@@ -176,6 +195,9 @@ func (vc *VC) obligeClause(kind, label, site string, guard Term, env *Env, cl *C
 				continue
 			}
 			o.Extra = append(o.Extra, fmt.Sprintf("(declare-const %s Int)", sk.S))
+			for _, u := range unf {
+				o.Extra = append(o.Extra, "(assert "+subst(eq(u.app, u.body), v, sk).S+")")
+			}
 			vc.addInstances(o, vc.instCandidates([]Term{sk}, env))
 			continue
 		}
@@ -226,6 +248,9 @@ func (vc *VC) addInstances(o *Obligation, cands []Term) {
 		}
 		for _, c := range cands {
 			o.Extra = append(o.Extra, "(assert "+implies(qf.guard, subst(qf.body, qf.varSym, c)).S+")")
+			for _, u := range qf.unfolds {
+				o.Extra = append(o.Extra, "(assert "+subst(eq(u.app, u.body), qf.varSym, c).S+")")
+			}
 		}
 	}
 }
